@@ -62,6 +62,28 @@ Theorem C14_base_col_no_set_warning : forall centre geomean cs rows c0 col,
 Proof. exact base_col_no_set_warning. Qed.
 Print Assumptions C14_base_col_no_set_warning.
 
+(** headline refinement: for every sequence of measurements, the tables the
+    builder produces are the specified ones - one table per table key present,
+    in sort order; rows and columns the keys present, in sort order; one cell per
+    populated (row, col) holding exactly its measurements and residue keys;
+    baseline = first column; summaries as summarizeCol computes them from those
+    cells (sort orders injective on keys, which C09 establishes) *)
+Theorem C14_build_meets_spec :
+  forall rank_t rank_r rank_c centre geomean,
+  (forall a b, rank_r a = rank_r b -> a = b) ->
+  (forall a b, rank_c a = rank_c b -> a = b) ->
+  (forall a b, rank_t a = rank_t b -> a = b) ->
+  forall ms,
+  to_tables rank_t rank_r rank_c centre geomean (build ms) =
+  spec_tables rank_t rank_r rank_c centre geomean ms.
+Proof. exact build_meets_spec. Qed.
+Print Assumptions C14_build_meets_spec.
+
+(** the stateful lookup of a cell is the declarative one *)
+Theorem C14_build_cell_is_spec : forall ms t r c, lookup_cell (build ms) t r c = spec_cell ms t r c.
+Proof. exact build_cell_is_spec. Qed.
+Print Assumptions C14_build_cell_is_spec.
+
 (** non-vacuity *)
 Example C14_example :
   let ms := [mkMeas 0 0 0 0 b64_one; mkMeas 0 0 1 1 b64_zero; mkMeas 0 0 0 2 b64_zero] in
